@@ -185,4 +185,90 @@ theorem la_add_la (s : VState) (e : Event) :
       (s.assignBranch e).1.la).setRow s.size (LAV.zero.set (s.assignBranch e).2 e.seq) = _
   rw [hsz, hpar, hla]
 
+/-! ### the auxiliary invariant -/
+
+/-- the part of I1 that the LowestAfter proof needs at every prefix (proved here directly; the full
+    branch invariant `BranchInv` is the business of Proofs/VecHB*.lean) -/
+structure LAux (nVals : Nat) (h : Hist) (s : VState) : Prop where
+  size_eq : s.size = h.length
+  nvals_eq : s.nVals = nVals
+  nvals_le : nVals ≤ s.nBr
+  nbr_le : s.nBr ≤ nVals + h.length
+  parents_eq : ∀ i, i < h.length → s.parents i = (Hist.ev h i).parents
+  branch_lt : ∀ i, i < h.length → s.branchOf i < s.nBr
+  last_ub : ∀ i, i < h.length → (Hist.ev h i).seq ≤ s.lastSeq (s.branchOf i)
+  last_bd : ∀ b, s.lastSeq b < 2147483646
+
+theorem la_aux_init (nVals : Nat) : LAux nVals [] (VState.init nVals) where
+  size_eq := rfl
+  nvals_eq := rfl
+  nvals_le := Nat.le_refl _
+  nbr_le := Nat.le_add_right _ _
+  parents_eq := fun i hi => by simp at hi
+  branch_lt := fun i hi => by simp at hi
+  last_ub := fun i hi => by simp at hi
+  last_bd := fun b => by show (0 : Nat) < 2147483646; omega
+
+/-- the new event carries the highest seq of its branch, and its branch is a valid branch -/
+theorem la_assign_top {nVals : Nat} {h : Hist} {s : VState} {e : Event}
+    (hx : LAux nVals h s) (hn : ValidNext nVals h e) :
+    (s.assignBranch e).2 < (s.add e).nBr ∧ s.nBr ≤ (s.add e).nBr ∧ (s.add e).nBr ≤ s.nBr + 1 ∧
+    ∀ i, i < h.length → s.branchOf i = (s.assignBranch e).2 → (Hist.ev h i).seq ≤ e.seq := by
+  obtain ⟨_, _, hcase⟩ := la_assign_cases s e
+  rw [la_add_nBr]
+  rcases hcase with ⟨hme, hnb⟩ | ⟨hnb, ⟨hme, hz⟩ | ⟨hne, hme, hext⟩⟩
+  · refine ⟨by omega, by omega, by omega, fun i hi hbi => ?_⟩
+    have := hx.branch_lt i hi; omega
+  · refine ⟨?_, by omega, by omega, fun i hi hbi => ?_⟩
+    · have := hn.creator_lt; have := hx.nvals_le; omega
+    · have := hx.last_ub i hi; rw [hbi, hz] at this; omega
+  · have hmem : e.parents.headD 0 ∈ e.parents := by
+      cases hp : e.parents with
+      | nil => exact absurd hp hne
+      | cons a l => simp
+    refine ⟨?_, by omega, by omega, fun i hi hbi => ?_⟩
+    · have := hx.branch_lt _ (hn.parents_lt _ hmem); omega
+    · have h1 := hx.last_ub i hi; rw [hbi] at h1
+      have h2 := hx.last_bd (s.assignBranch e).2
+      omega
+
+theorem la_aux_add {nVals : Nat} {h : Hist} {s : VState} {e : Event}
+    (hx : LAux nVals h s) (hn : ValidNext nVals h e) : LAux nVals (h ++ [e]) (s.add e) := by
+  obtain ⟨hme, hnb1, hnb2, htop⟩ := la_assign_top hx hn
+  have hls := (la_assign_cases s e).2.1
+  have hlen : (h ++ [e]).length = h.length + 1 := by simp
+  refine ⟨?_, ?_, ?_, ?_, ?_, ?_, ?_, ?_⟩
+  · rw [la_add_size, hx.size_eq, hlen]
+  · rw [la_add_nVals, hx.nvals_eq]
+  · have := hx.nvals_le; omega
+  · have := hx.nbr_le; omega
+  · intro i hi
+    rw [la_add_parents, hx.size_eq]
+    by_cases hil : i = h.length
+    · rw [if_pos hil, hil, la_ev_snoc_self]
+    · rw [if_neg hil, la_ev_append_left _ (by omega), hx.parents_eq i (by omega)]
+  · intro i hi
+    rw [la_add_branchOf, hx.size_eq]
+    by_cases hil : i = h.length
+    · rw [if_pos hil]; exact hme
+    · rw [if_neg hil]; have := hx.branch_lt i (by omega); omega
+  · intro i hi
+    rw [la_add_lastSeq, hls, la_add_branchOf, hx.size_eq]
+    by_cases hil : i = h.length
+    · rw [if_pos hil, if_pos rfl, hil, la_ev_snoc_self]; exact Nat.le_refl _
+    · rw [if_neg hil, la_ev_append_left _ (by omega)]
+      by_cases hb : s.branchOf i = (s.assignBranch e).2
+      · rw [if_pos hb]; exact htop i (by omega) hb
+      · rw [if_neg hb]; exact hx.last_ub i (by omega)
+  · intro b
+    rw [la_add_lastSeq, hls]
+    by_cases hb : b = (s.assignBranch e).2
+    · rw [if_pos hb]; exact hn.seq_lt
+    · rw [if_neg hb]; exact hx.last_bd b
+
+theorem la_aux_run {nVals : Nat} {h : Hist} (hv : Valid nVals h) : LAux nVals h (run nVals h) := by
+  induction hv with
+  | nil => exact la_aux_init nVals
+  | snoc _ hn ih => rw [la_run_snoc]; exact la_aux_add ih hn
+
 end VecProofs
